@@ -25,9 +25,9 @@
      Join("/", Join(Dir(p), Clean(link)))  = join of  norm_clamp (dir ++ comps link)
      Clean(link) when absolute             = join of  norm_clamp (comps link).
 
-   The model carries write-only ghost state ([g_expanded], [g_revisit]) that never
-   influences the result: it records with which remainders a symlink was expanded,
-   so that "a symlink was met again with a remainder it was not expanded with"
+   The model carries write-only ghost state ([g_calls], [g_expanded], [g_revisit]) that
+   never influences the result: it records the arguments of append and with which
+   remainders a symlink was expanded, so that "a symlink was met again with a remainder it was not expanded with"
    ([no_revisit], known finding K4) is a computable predicate over the case.
 
    Also in this file: the INDEPENDENT resolver [chroot_resolve] (Linux path
@@ -113,18 +113,26 @@ Definition link_target (dirc : list bytes) (l : bytes) : list bytes :=
   norm_clamp ((if is_abs l then [] else dirc) ++ comps l).
 
 (* ------------------------------------------------------------------ resolver state *)
+(* ghost entries: (components of the directory, component, remaining components) *)
+Definition gent := (list bytes * bytes * list bytes)%type.
+
 Record fstate := {
-  resolved : list bytes;                       (* r.resolved, as a duplicate-free list of keys *)
-  g_expanded : list (bytes * list bytes);      (* ghost: (symlink key, remainder it was expanded with) *)
-  g_revisit : list (bytes * list bytes)        (* ghost: symlink met again with a remainder not yet expanded *)
+  resolved : list bytes;        (* r.resolved, as a duplicate-free list of keys *)
+  g_calls : list (list bytes);  (* ghost: every p that append was entered with *)
+  g_expanded : list gent;       (* ghost: symlink dir/c expanded with remainder rest *)
+  g_revisit : list gent         (* ghost: symlink met again with a remainder it was not expanded with *)
 }.
 
-Definition st0 : fstate := {| resolved := []; g_expanded := []; g_revisit := [] |}.
+Definition st0 : fstate := {| resolved := []; g_calls := []; g_expanded := []; g_revisit := [] |}.
 
 Definition add_resolved (k : bytes) (st : fstate) : fstate :=
-  {| resolved := k :: resolved st; g_expanded := g_expanded st; g_revisit := g_revisit st |}.
-Definition add_expanded (k : bytes) (rest : list bytes) (st : fstate) : fstate :=
-  {| resolved := resolved st; g_expanded := (k, rest) :: g_expanded st; g_revisit := g_revisit st |}.
+  {| resolved := k :: resolved st; g_calls := g_calls st; g_expanded := g_expanded st; g_revisit := g_revisit st |}.
+Definition add_call (p : list bytes) (st : fstate) : fstate :=
+  {| resolved := resolved st; g_calls := p :: g_calls st; g_expanded := g_expanded st; g_revisit := g_revisit st |}.
+Definition add_expanded (e : gent) (st : fstate) : fstate :=
+  {| resolved := resolved st; g_calls := g_calls st; g_expanded := e :: g_expanded st; g_revisit := g_revisit st |}.
+Definition add_revisit (e : gent) (st : fstate) : fstate :=
+  {| resolved := resolved st; g_calls := g_calls st; g_expanded := g_expanded st; g_revisit := e :: g_revisit st |}.
 
 Fixpoint comps_eqb (a b : list bytes) : bool :=
   match a, b with
@@ -133,18 +141,21 @@ Fixpoint comps_eqb (a b : list bytes) : bool :=
   | _, _ => false
   end.
 
-Fixpoint mem_exp (k : bytes) (rest : list bytes) (l : list (bytes * list bytes)) : bool :=
+Definition gent_eqb (a b : gent) : bool :=
+  match a, b with
+  | (d1, c1, r1), (d2, c2, r2) => comps_eqb d1 d2 && bytes_eqb c1 c2 && comps_eqb r1 r2
+  end.
+
+Fixpoint mem_exp (e : gent) (l : list gent) : bool :=
   match l with
   | [] => false
-  | (k', r') :: t => (bytes_eqb k k' && comps_eqb rest r') || mem_exp k rest t
+  | e' :: t => gent_eqb e e' || mem_exp e t
   end.
 
 (* early return at an already resolved key: harmless unless it is a symlink that was
    never expanded with this remainder *)
-Definition note_revisit (is_link : bool) (k : bytes) (rest : list bytes) (st : fstate) : fstate :=
-  if is_link && negb (mem_exp k rest (g_expanded st))
-  then {| resolved := resolved st; g_expanded := g_expanded st; g_revisit := (k, rest) :: g_revisit st |}
-  else st.
+Definition note_revisit (is_link : bool) (e : gent) (st : fstate) : fstate :=
+  if is_link && negb (mem_exp e (g_expanded st)) then add_revisit e st else st.
 
 (* ------------------------------------------------------------------ sort.Strings, dedupePaths *)
 Fixpoint insert_sorted (x : bytes) (l : list bytes) : list bytes :=
@@ -216,8 +227,8 @@ Fixpoint loop (rec : rec_t) (cur p : list bytes) (st : fstate) {struct p} : resu
     let targets := read_symlink cur c in
     let last := is_nil rest in
     let has := negb (is_nil targets) in
-    if (last || has) && mem k (resolved st) then Ok (note_revisit has k rest st)
-    else if has then each_target rec rest targets (add_expanded k rest (add_resolved k st))
+    if (last || has) && mem k (resolved st) then Ok (note_revisit has (cur, c, rest) st)
+    else if has then each_target rec rest targets (add_expanded (cur, c, rest) (add_resolved k st))
     else if last then Ok (add_resolved k st)
     else loop rec cur' rest st
   end.
@@ -226,6 +237,7 @@ Fixpoint append (fuel : nat) (st : fstate) (p : list bytes) {struct fuel} : resu
   match fuel with
   | O => OutOfFuel
   | S f =>
+    let st := add_call p st in
     match p with
     | [] => (* p = ".": current = ".", statFile answers nil *)
       Ok (if mem s_dot (resolved st) then st else add_resolved s_dot st)
@@ -655,7 +667,8 @@ Fixpoint names_distinct (l : list bytes) : bool :=
 Fixpoint wf_node (n : node) {struct n} : bool :=
   match n with
   | Node name st _ kids =>
-    name_ok name && (mode_is_dir (st_mode st) || is_nil kids) && names_distinct (map node_name kids) &&
+    name_ok name && (mode_is_dir (st_mode st) || is_nil kids) &&
+    negb (mode_is_dir (st_mode st) && mode_is_symlink (st_mode st)) && names_distinct (map node_name kids) &&
     (fix go (l : list node) : bool := match l with [] => true | k :: r => wf_node k && go r end) kids
   end.
 Definition wf_view (view : list node) : bool :=
